@@ -177,12 +177,15 @@ fn write_one<W: std::io::Write>(out: &mut W, r: &WRec, wrap: usize) -> CheckResu
         e => {
             // RefRecord obtained by parsing a multi-line rendering of the same record
             let w = (r.src_width as usize).max(1);
+            // (CRLF rendering when the pre-failing-write option is odd or absent and the width is even: a cheap, replayable selector)
+            let crlf = r.src_width % 2 == 0;
+            let t: &[u8] = if crlf { b"\r\n" } else { b"\n" };
             let mut text = vec![b'>'];
             text.extend_from_slice(&head);
-            text.push(b'\n');
+            text.extend_from_slice(t);
             for l in r.seq.chunks(w) {
                 text.extend_from_slice(l);
-                text.push(b'\n');
+                text.extend_from_slice(t);
             }
             let mut rdr = fasta::Reader::new(&text[..]);
             let rec = match rdr.next() {
@@ -366,7 +369,7 @@ pub fn wrec(wrap_hint: usize) -> BoxedStrategy<WRec> {
     let seq_len = prop_oneof![60 => seq_len, 1 => 200usize..3000, 1 => 8000usize..20000];
     let seq = seq_len.prop_flat_map(|n| vec(prop::sample::select(&b"ACGTN acgt*-;@+\x80"[..]), n)).prop_map(B);
     let pre_fail = prop_oneof![6 => Just(None), 1 => (0u16..60).prop_map(Some), 1 => (60u16..9000).prop_map(Some)];
-    (head_part(false), prop::option::of(head_part(true)), seq, vec((any::<u16>(), prop::bool::weighted(0.2)), 0..5), 0u8..N_ENTRIES, 1u8..30, pre_fail)
+    (head_part(false), prop::option::of(head_part(true)), seq, vec((any::<u16>(), prop::bool::weighted(0.2)), 0..5), 0u8..N_ENTRIES, prop_oneof![2 => 1u8..30, 1 => (-1i32..=1).prop_map(move |d| (wrap_hint as i32 + d).clamp(1, 250) as u8)], pre_fail)
         .prop_map(|(mut id, mut desc, seq, cuts, entry, src_width, pre_fail)| {
             // the header must not end in CR
             match desc.as_mut() {
@@ -405,7 +408,7 @@ impl Prop for FastaWrite {
     }
 }
 
-pub const RULE: &str = "cases = 1..5 records (id without space/LF, optional description, header not ending in CR, may contain '>', CR inside, non-UTF-8; sequence without LF/CR/'>' of length 0..200 with lengths k*wrap+{-1,0,1} over-weighted; chunking with cut points and inserted empty chunks; one of 11 writer entry points incl. RefRecord methods on a parsed multi-line rendering) x wrap 1..=70 (rarely up to 400, or a 'do not wrap' width such as usize::MAX, usize::MAX / 2 + 1, 2^40, 2^32), written back to back into a Vec or into a writer that accepts only part of each buffer (at most n bytes per write(), or never across an n-byte block boundary) or that is interrupted (ErrorKind::Interrupted) every few calls; sequences up to 20 kB with low weight; with probability 1/4 a record's write is preceded by the same call on a writer that fails with an I/O error after k bytes (the result is ignored, as a caller that carries on would). Oracle: parse(output) = the list of (header, sequence) and id/desc parts; on the raw bytes: wrapped lines <= wrap and all but the last == wrap, unwrapped output has one sequence line; write_seq = write_seq_iter(chunks); for non-empty sequences write_wrap_seq = write_wrap_seq_iter(chunks) byte for byte. Exhaustive sub-check: every sequence length 0..=8 x wrap 1..=9 x every set of cut points x {no, leading, trailing} empty chunk. Non-trivial = a sequence longer than wrap or >= 2 chunks. Distinct = hash(case).";
+pub const RULE: &str = "cases = 1..5 records (id without space/LF, optional description, header not ending in CR, may contain '>', CR inside, non-UTF-8; sequence without LF/CR/'>' of length 0..200 with lengths k*wrap+{-1,0,1} over-weighted; chunking with cut points and inserted empty chunks; one of 11 writer entry points incl. RefRecord methods on a parsed multi-line LF or CRLF rendering whose line width is often the wrap width - 1, the wrap width or + 1) x wrap 1..=70 (rarely up to 400, or a 'do not wrap' width such as usize::MAX, usize::MAX / 2 + 1, 2^40, 2^32), written back to back into a Vec or into a writer that accepts only part of each buffer (at most n bytes per write(), or never across an n-byte block boundary) or that is interrupted (ErrorKind::Interrupted) every few calls; sequences up to 20 kB with low weight; with probability 1/4 a record's write is preceded by the same call on a writer that fails with an I/O error after k bytes (the result is ignored, as a caller that carries on would). Oracle: parse(output) = the list of (header, sequence) and id/desc parts; on the raw bytes: wrapped lines <= wrap and all but the last == wrap, unwrapped output has one sequence line; write_seq = write_seq_iter(chunks); for non-empty sequences write_wrap_seq = write_wrap_seq_iter(chunks) byte for byte. Exhaustive sub-check: every sequence length 0..=8 x wrap 1..=9 x every set of cut points x {no, leading, trailing} empty chunk. Non-trivial = a sequence longer than wrap or >= 2 chunks. Distinct = hash(case).";
 
 pub fn run(tier: Tier) -> i32 {
     let mut run = Run::new("C10", tier, "exploration");
